@@ -437,7 +437,7 @@ pub fn run(ctx: &Ctx, replay: Option<&J>) -> i32 {
     }
     lists.sort_by_key(|l| RV::List(l.clone()).canon());
     lists.dedup_by_key(|l| RV::List(l.clone()).canon());
-    par_for(lists.len(), |i| {
+    par_for_ctx(ctx, lists.len(), |i| {
         let l = &lists[i];
         let mut sess = Session::new();
         sess.run(PRELUDE);
@@ -456,7 +456,7 @@ pub fn run(ctx: &Ctx, replay: Option<&J>) -> i32 {
     // ---- strings
     let mut strings: Vec<String> = sigma_strings(if thorough { 3 } else { 2 });
     strings.extend(["hello", "a,b,,c", "abcabc", " x ", "\u{e9}a", "a\u{e9}", "na\u{ef}ve caf\u{e9}", "\u{1f600}\u{1f600}a", "e\u{301}e\u{301}"].iter().map(|s| s.to_string()));
-    par_for(strings.len(), |i| {
+    par_for_ctx(ctx, strings.len(), |i| {
         let s = &strings[i];
         let mut sess = Session::new();
         let subj = format!("s = {}", str_src(s));
@@ -485,7 +485,7 @@ pub fn run(ctx: &Ctx, replay: Option<&J>) -> i32 {
             }
         }
     }
-    par_for(records.len(), |i| {
+    par_for_ctx(ctx, records.len(), |i| {
         let r = &records[i];
         let mut sess = Session::new();
         let subj = format!("r = {}", rv_src(&RV::Rec(r.clone())));
